@@ -64,6 +64,30 @@ def C24 : List (String × String) := [("TempPool.SetBallot", "94e63e2b19ba4c15")
   ("leveldbProposalKey", "afb13582b8a2d487"),
   ("heightFromKey", "69be931e5c265b69")]
 
+def C25 : List (String × String) := [("NewPrefixKey", "54368f7169899520"),
+  ("NewPrefixStorage", "adde037c0711776f"),
+  ("PrefixStorage.Close", "11e988a465eb1313"),
+  ("PrefixStorage.Remove", "508cab8a41670975"),
+  ("PrefixStorage.Get", "a608fcdee93ec80a"),
+  ("PrefixStorage.Exists", "b84415127cded978"),
+  ("PrefixStorage.Iter", "8cd16b2d8d8e8684"),
+  ("PrefixStorage.Put", "3bc16eb4d0f8bf56"),
+  ("PrefixStorage.Delete", "4b4ec200c5e089fd"),
+  ("PrefixStorage.NewBatch", "efb3dee3e27ec44e"),
+  ("PrefixStorage.Batch", "3723e07c4a69ec7c"),
+  ("PrefixStorage.key", "ed4d7488d675001b"),
+  ("PrefixStorage.origkey", "87b930932266464a"),
+  ("PrefixStorageBatch.Put", "7f6eaddb570e3c3d"),
+  ("PrefixStorageBatch.Delete", "37dd78decd2b9af2"),
+  ("RemoveByPrefix", "1adb6e4e0c893387"),
+  ("Storage.Get", "1da59af6c648991e"),
+  ("Storage.Exists", "69935f571d537cf0"),
+  ("Storage.Iter", "24370b112fc79300"),
+  ("Storage.Put", "dd600321ccc75211"),
+  ("Storage.Delete", "745ca026c7f80b71"),
+  ("Storage.Batch", "159c21f7d176df42"),
+  ("BatchRemove", "a60b67f8f40a2d79")]
+
 def C29 : List (String × String) := [("EnsureRead", "a37a8396188f899f"),
   ("WriteLengthed", "02f939df4a74b2e6"),
   ("ReadLengthedBytes", "51db0448790bfa52"),
